@@ -1205,8 +1205,10 @@ void rfbNewFramebuffer(rfbScreenInfoPtr screen, char *framebuffer,
     cl->copyDX = 0;
     cl->copyDY = 0;
 
-    if (cl->useNewFBSize)
-      cl->newFBSizePending = TRUE;
+    /* also for a client that has not (yet) announced NewFBSize / ExtendedDesktopSize: the
+       flag only acts once it does, and a viewer whose SetEncodings arrives after this
+       replacement still believes in the size ServerInit told it */
+    cl->newFBSizePending = TRUE;
 
     TSIGNAL(cl->updateCond);
     UNLOCK(cl->updateMutex);
